@@ -2,7 +2,7 @@ import Fv.Lemmas.TopicB
 import Fv.Lemmas.TopicExact
 import Fv.Lemmas.TopicDisc2
 /-! Model B: what enters a mailbox was published while its receiver was subscribed (contract
-sense) at the snapshot instant — schedules without receiver `close()`. Progress of a send. -/
+sense) at the snapshot instant — schedules that never call `subscribe` on a closed handle. -/
 namespace Fv.Chan.TopicB
 open Fv.Chan.Topic
 
@@ -35,7 +35,7 @@ theorem isLive_true_iff (rxs : List Rx) (m : Nat) : isLive rxs m = true ↔ ∃ 
   | none => simp
   | some y => simp
 
-theorem BW_bapi (b : BSt) (op : Op) (hop : ∀ r, op ≠ .rClose r) (hb : BW b) : BW (bapi b op) := by
+theorem BW_bapi (b : BSt) (op : Op) (hop : OkSub b.q op) (hb : BW b) : BW (bapi b op) := by
   have hbi := BI_bapi b op hb.bi
   unfold bapi at hbi ⊢
   by_cases hs : isSend op = true
@@ -162,19 +162,20 @@ theorem BW_bdeliver (b : BSt) (tid : Nat) (hb : BW b) : BW (bdeliver b tid) := b
             exact (hb.fl f hfm x hmrem).2 (grew_live _ _ _ hg)
         · exact hb.acc x i hi
 
-/-- schedules without receiver `close()` -/
-def NoRCloseB (os : List BOp) : Prop := ∀ o, o ∈ os → ∀ r, o ≠ .api (.rClose r)
+/-- `subscribe` is never called on a receiver handle that is closed at that moment -/
+def OkSubsB : BSt → List BOp → Prop
+  | _, [] => True
+  | b, o :: os => (∀ op, o = .api op → OkSub b.q op) ∧ OkSubsB (bstep b o) os
 
-theorem BW_bstep (b : BSt) (o : BOp) (ho : ∀ r, o ≠ .api (.rClose r)) (hb : BW b) : BW (bstep b o) := by
+theorem BW_bstep (b : BSt) (o : BOp) (ho : ∀ op, o = .api op → OkSub b.q op) (hb : BW b) : BW (bstep b o) := by
   cases o with
-  | api op => exact BW_bapi b op (fun r he => ho r (by rw [he])) hb
+  | api op => exact BW_bapi b op (ho op rfl) hb
   | begin tid h t v => exact BW_bbegin b tid h t v hb
   | deliver tid => exact BW_bdeliver b tid hb
 
-theorem BW_brun (b : BSt) (os : List BOp) (ho : NoRCloseB os) (hb : BW b) : BW (brun b os) := by
+theorem BW_brun (b : BSt) (os : List BOp) (ho : OkSubsB b os) (hb : BW b) : BW (brun b os) := by
   induction os generalizing b with
   | nil => exact hb
-  | cons o os ih =>
-    exact ih _ (fun o' h' => ho o' (List.mem_cons_of_mem _ h')) (BW_bstep b o (ho o (List.mem_cons_self ..)) hb)
+  | cons o os ih => exact ih _ ho.2 (BW_bstep b o ho.1 hb)
 
 end Fv.Chan.TopicB
